@@ -161,3 +161,61 @@ Theorem model_deterministic : forall c1 c2 d1 d2 k1 k2 T1 T2 v1 v2 b1 b2,
   c1 = c2 -> d1 = d2 -> k1 = k2 -> T1 = T2 -> v1 = v2 -> b1 = b2 ->
   encode c1 d1 k1 T1 v1 = encode c2 d2 k2 T2 v2 /\ decode c1 (Some T1) b1 = decode c2 (Some T2) b2.
 Proof. intros; subst; split; reflexivity. Qed.
+
+(* ---------- SEQUENCE OF / SET OF: the order in which the positions were first assigned ---------- *)
+
+Lemma dget_dset k k' v (d: dict) : dget k (dset k' v d) = if Nat.eqb k k' then Some v else dget k d.
+Proof.
+  induction d as [|[j w] d IH]; cbn [dset dget].
+  - destruct (Nat.eqb k k'); reflexivity.
+  - destruct (Nat.eqb_spec k' j) as [->|Hne]; cbn [dget].
+    + destruct (Nat.eqb_spec k j); reflexivity.
+    + rewrite IH. destruct (Nat.eqb_spec k j) as [->|]; [|reflexivity].
+      destruct (Nat.eqb_spec j k'); [congruence|reflexivity].
+Qed.
+
+(* the encoder walks positions 0 .. len-1 in ascending order and looks each one up: on a state without
+   holes or placeholders what it emits is a function of the lookup, not of the dict's insertion order *)
+Lemma sof_chunks_full ct (d: dict) (val: nat -> Z) n : slen (Some d) = n ->
+  (forall k, k < n -> dget k d = Some (CVal (val k))) ->
+  forall m from acc, from + m <= n ->
+  sof_chunks ct (Some d) from m acc =
+  (Some d, Ok (rev acc ++ map (fun k => int_tlv tag_integer (val k)) (seq from m))).
+Proof.
+  intros Hn Hv. induction m as [|m IH]; intros from acc H; cbn [sof_chunks seq map].
+  - rewrite app_nil_r. reflexivity.
+  - unfold sof_get. rewrite norm_idx_nat. unfold sget. cbn [sdict]. rewrite (Hv from) by lia.
+    rewrite IH by lia. cbn [rev]. rewrite <- app_assoc. reflexivity.
+Qed.
+
+Theorem seqof_assignment_order ct isset (d1 d2: dict) (val: nat -> Z) n :
+  slen (Some d1) = n -> slen (Some d2) = n ->
+  (forall k, k < n -> dget k d1 = Some (CVal (val k))) ->
+  (forall k, k < n -> dget k d2 = Some (CVal (val k))) ->
+  snd (sof_step ct isset (Some d1) SEncode) = snd (sof_step ct isset (Some d2) SEncode) /\
+  fst (sof_step ct isset (Some d1) SEncode) = Some d1 /\
+  snd (sof_step ct isset (Some d1) SIter) = OSlots (map (fun k => Some (CVal (val k))) (seq 0 n)).
+Proof.
+  intros H1 H2 V1 V2. cbn [sof_step]. rewrite H1, H2.
+  rewrite (sof_chunks_full ct d1 val n H1 V1 n 0 []) by lia.
+  rewrite (sof_chunks_full ct d2 val n H2 V2 n 0 []) by lia.
+  split; [reflexivity|]. split; [reflexivity|].
+  assert (G: forall m from acc, from + m <= n ->
+             sof_iter ct (Some d1) from m acc = (Some d1, Ok (rev acc ++ map (fun k => Some (CVal (val k))) (seq from m)))).
+  { induction m as [|m IH]; intros from acc H; cbn [sof_iter seq map].
+    - rewrite app_nil_r. reflexivity.
+    - unfold sof_get. rewrite norm_idx_nat. unfold sget. cbn [sdict]. rewrite (V1 from) by lia.
+      rewrite IH by lia. cbn [rev]. rewrite <- app_assoc. reflexivity. }
+  rewrite (G n 0 []) by lia. reflexivity.
+Qed.
+
+(* s[2] = 30; s[1] = 20; s[0] = 10 against the ascending twin: different dicts, same lookup, same DER *)
+Lemma seqof_assignment_order_example :
+  let h1 := [SSetItem 2 (PInt 30); SSetItem 1 (PInt 20); SSetItem 0 (PInt 10)] in
+  let h2 := [SSetItem 0 (PInt 10); SSetItem 1 (PInt 20); SSetItem 2 (PInt 30)] in
+  fst (sof_run true false None h1) = Some [(2, CVal 30%Z); (1, CVal 20%Z); (0, CVal 10%Z)] /\
+  fst (sof_run true false None h2) = Some [(0, CVal 10%Z); (1, CVal 20%Z); (2, CVal 30%Z)] /\
+  snd (sof_step true false (fst (sof_run true false None h1)) SEncode) =
+  snd (sof_step true false (fst (sof_run true false None h2)) SEncode) /\
+  snd (sof_step true false (fst (sof_run true false None h1)) SEncode) = OBytes [48; 9; 2; 1; 10; 2; 1; 20; 2; 1; 30]%N.
+Proof. repeat split. Qed.
